@@ -11,22 +11,17 @@ from .common import *
 WHERE = ("core", "src/value.rs")
 
 PRELUDE = '''
-  pub struct VH { pub buf: [u8; 48], pub n: usize }
-  impl VH { pub fn new() -> Self { VH { buf: [0u8; 48], n: 0 } } }
+  // deterministic, injective-on-short-streams hasher: records the first 32 bytes and the stream length
+  pub struct VH { pub w: [u64; 4], pub n: usize }
+  impl VH { pub fn new() -> Self { VH { w: [0u64; 4], n: 0 } } }
   impl ::std::hash::Hasher for VH {
     fn finish(&self) -> u64 { 0 }
     fn write(&mut self, bytes: &[u8]) {
       let mut i = 0;
-      while i < bytes.len() { if self.n < 48 { self.buf[self.n] = bytes[i]; } self.n += 1; i += 1; }
+      while i < bytes.len() { if self.n < 32 { self.w[self.n / 8] |= (bytes[i] as u64) << ((self.n % 8) * 8); } self.n += 1; i += 1; }
     }
   }
-  pub fn vh_same(a: &VH, b: &VH) -> bool {
-    if a.n != b.n { return false; }
-    let mut i = 0;
-    let mut same = true;
-    while i < 48 { if a.buf[i] != b.buf[i] { same = false; } i += 1; }
-    same
-  }
+  pub fn vh_same(a: &VH, b: &VH) -> bool { a.n == b.n && a.w[0] == b.w[0] && a.w[1] == b.w[1] && a.w[2] == b.w[2] && a.w[3] == b.w[3] }
   pub fn vh_of(v: &Value) -> VH { let mut h = VH::new(); ::std::hash::Hash::hash(v, &mut h); h }
 '''
 
@@ -48,7 +43,7 @@ def gen_scalar(t, tier):
     return H("c14_hash_eq_%s" % t.lower(), "    " + "\n    ".join(b), WHERE, domain="accept", key="hash-eq/%s" % var,
              desc="two symbolic %s values: a == b implies identical hash byte stream" % t,
              functions=["<Value as Hash>::hash (src/core/src/value.rs)", "<Value as PartialEq>::eq (derived)"],
-             bounds="all bit patterns of both values" + ("; strings of one byte" if t == "String" else ""), unwind=50, tier=tier)
+             bounds="all bit patterns of both values" + ("; strings of one byte" if t == "String" else ""), unwind=18, tier=tier)
 
 
 def gen_tuple(t1, t2, tier):
@@ -64,7 +59,7 @@ def gen_tuple(t1, t2, tier):
     return H("c14_hash_eq_tuple_%s_%s" % (t1.lower(), t2.lower()), "    " + "\n    ".join(b), WHERE, domain="accept",
              key="hash-eq/Tuple(%s,%s)" % (v1, v2), desc="two symbolic (%s,%s) tuples: equal implies identical hash stream" % (t1, t2),
              functions=["<Value as Hash>::hash", "<MechTuple as Hash>::hash (src/core/src/structures/tuple.rs)", "derived PartialEq"],
-             bounds="all values of the four components", unwind=50, tier=tier)
+             bounds="all values of the four components", unwind=18, tier=tier)
 
 
 def gen_matrix(t, tier):
@@ -80,7 +75,7 @@ def gen_matrix(t, tier):
     return H("c14_hash_eq_matrix_%s" % t.lower(), "    " + "\n    ".join(b), WHERE, domain="accept", key="hash-eq/Matrix%s" % var,
              desc="two symbolic 1x2 %s row vectors: equal implies identical hash stream (a set of matrices must not hold duplicates)" % t,
              functions=["<Value as Hash>::hash", "<Matrix<T> as Hash>::hash (src/core/src/structures/matrix.rs)"],
-             bounds="1x2, all element values", unwind=50, tier=tier)
+             bounds="1x2, all element values", unwind=18, tier=tier)
 
 
 def gen_set_order(tier):
@@ -98,7 +93,7 @@ def gen_set_order(tier):
              desc="{x,y} and {y,x} (symbolic distinct u8): equal sets must hash equally, otherwise a set of sets holds duplicates",
              functions=["<MechSet as Hash>::hash (src/core/src/structures/set.rs)", "derived PartialEq of MechSet (IndexSet equality)",
                         "MechSet::from_set"],
-             bounds="two elements, all u8 values; IndexSet/SipHash as compiled", unwind=50, tier=tier)
+             bounds="two elements, all u8 values; IndexSet/SipHash as compiled", unwind=18, tier=tier)
 
 
 def gen_from_vec(tier):
@@ -113,7 +108,7 @@ def gen_from_vec(tier):
     return H("c14_from_vec_u8", "    " + "\n    ".join(b), WHERE, domain="accept", key="from_vec/U8",
              desc="MechSet::from_vec on three symbolic u8: size = number of distinct values, num_elements = size, kind = u8",
              functions=["MechSet::from_vec (src/core/src/structures/set.rs)", "IndexSet::insert as compiled"],
-             bounds="3 elements, all u8 values", unwind=50, tier=tier)
+             bounds="3 elements, all u8 values", unwind=18, tier=tier)
 
 
 def gen_total(name, expr, what, tier, unwind=8):
@@ -129,8 +124,9 @@ def plan(tier, seed):
     hs = []
     for t in ["u8", "i64", "f64", "bool", "String"]:
         hs.append(gen_scalar(t, "quick"))
-    for t in ["u16", "u32", "u64", "u128", "i8", "i16", "i32", "i128", "f32", "R64", "C64"]:
+    for t in ["u16", "u32", "u64", "u128", "i8", "i16", "i32", "i128", "f32", "C64"]:
         hs.append(gen_scalar(t, "rot"))
+    hs.append(gen_scalar("R64", "thorough"))
     hs.append(gen_tuple("u8", "u8", "quick"))
     hs.append(gen_tuple("u8", "f64", "thorough"))
     hs.append(gen_matrix("u8", "quick"))
@@ -139,9 +135,9 @@ def plan(tier, seed):
     hs.append(gen_from_vec("quick"))
     hs.append(gen_total("empty", "Value::Empty", "the empty value `_`", "quick"))
     hs.append(gen_total("matrix_f64", "Value::MatrixF64(Matrix::RowDVector(Ref::new(RowDVector::from_vec(vec![kani::any::<f64>()]))))",
-                        "a f64 matrix", "quick", unwind=50))
+                        "a f64 matrix", "quick", unwind=18))
     hs.append(gen_total("matrix_f32", "Value::MatrixF32(Matrix::RowDVector(Ref::new(RowDVector::from_vec(vec![kani::any::<f32>()]))))",
-                        "a f32 matrix", "thorough", unwind=50))
+                        "a f32 matrix", "thorough", unwind=18))
     hs.append(gen_total("index_all", "Value::IndexAll", "Value::IndexAll", "thorough"))
     return {
         "harnesses": hs,
